@@ -66,7 +66,7 @@ DocsOK(c) == \A x \in 1..Len(c.store) : c.store[x].doc.t = "unspec" \/ RenderJso
 
 Verdict(c) ==
   LET main == Runs(c, "main")
-      all  == main \o Runs(c, "expanded")
+      all  == main \o Runs(c, "expanded") \o Runs(c, "unfolded")
   IN IF ~SortedStore(c.store) \/ ~DocsOK(c) THEN "infra-bad-store-in-record"
      ELSE IF "agree" \in c.checks /\ ~Agree(c, all) THEN "runs-disagree"
      ELSE IF "agree" \in c.checks /\ ~BatchImpliesRow(main) THEN "batch-completes-but-row-fails"
@@ -75,7 +75,9 @@ Verdict(c) ==
      ELSE IF "sliced" \in c.checks /\ ~Sliced(c) THEN "not-the-requested-slice"
      ELSE IF "contract" \in c.checks THEN
           LET base == BaseRows(c.stmt, c.store) IN
-          IF ~ModelledB(c.stmt, c.store, base) THEN "unmodelled"
+          IF ErrExpectedB(c.stmt, c.store, base) /\ ~c.stmt.lim.has /\ ~IsAggStmt(c.stmt) THEN
+               (IF \A x \in 1..Len(main) : main[x].phase = "failed" THEN "ok" ELSE "documented-failure-not-reported")
+          ELSE IF ~ModelledB(c.stmt, c.store, base) THEN "unmodelled"
           ELSE IF ~Contract(c, base, main) THEN "differs-from-contract" ELSE "ok"
      ELSE "ok"
 
